@@ -193,7 +193,7 @@ def analyse(chk, prop, results):
     Returns statistics."""
     labels = LABELS[prop]
     stats = {'histories': len(results), 'ops': 0, 'op_kinds': {}, 'results': {}, 'disagreements': 0, 'monitor_failures': 0,
-             'mid_migration_ops': 0, 'failover_ok': 0, 'commits_ok': 0}
+             'failover_ok': 0, 'commits_ok': 0}
     first_dis = None
     for r in results:
         ops = [s.strip() for s in r['resolved'].split(' ; ')][1:]
@@ -207,6 +207,7 @@ def analyse(chk, prop, results):
             res = toks[0] if toks else '?'
             stats['results'][res.split(':')[0] + (':' + res.split(':')[1] if res.startswith('err:') else '')] = \
                 stats['results'].get(res.split(':')[0] + (':' + res.split(':')[1] if res.startswith('err:') else ''), 0) + 1
+            if res == 'err:MIGRATION_RUNNING': stats['refused_while_migrating'] = stats.get('refused_while_migrating', 0) + 1
             if kind == 'replace' and res.startswith('repl'): stats['failover_ok'] += 1; nontrivial = True
             if kind in ('commit', 'commitnth') and res == 'ok': stats['commits_ok'] += 1; nontrivial = True
             mon = toks[3] if len(toks) > 3 else 'm=?'
